@@ -12,7 +12,7 @@ FP2_THOROUGH = FP2_QUICK + [("/r/H/A/", "/v1/O/", "_v1.g", 1), ("/r/H/S/", "/v1/
 
 def x_obligations(tier):
     o = []
-    T = 170 if tier == "quick" else 1500
+    T = 170 if tier == "quick" else 600
     for cfg in ("local", "server"):
         for i, (pre, n, suf) in enumerate(FP_QUICK if tier == "quick" else FP_THOROUGH):
             if cfg == "server":
